@@ -516,11 +516,11 @@ func (b *Builder) SetRevisionDate(o interface{}, revisionDate string) {
 func (b *Builder) Unique(o interface{}, unique string) {
 	switch i := o.(type) {
 	case *List:
-		i.unique = append(i.unique, strings.Split(unique, " "))
+		i.unique = append(i.unique, strings.Fields(unique))
 	case *AddDeviate:
-		i.unique = append(i.unique, strings.Split(unique, " "))
+		i.unique = append(i.unique, strings.Fields(unique))
 	case *DeleteDeviate:
-		i.unique = append(i.unique, strings.Split(unique, " "))
+		i.unique = append(i.unique, strings.Fields(unique))
 	default:
 		b.setErr(fmt.Errorf("%T does not support unique, only lists do", o))
 	}
@@ -531,7 +531,7 @@ func (b *Builder) Key(o interface{}, keys string) {
 	if !valid {
 		b.setErr(fmt.Errorf("%T does not support key, only lists do", o))
 	} else {
-		i.key = strings.Split(keys, " ")
+		i.key = strings.Fields(keys)
 	}
 }
 
